@@ -45,10 +45,12 @@ func init() {
 			"oracles: every call returns; a call blocked when the closer acted returns within 20 s of it; Close/Stop return within 20 s; a Read/Write that cannot complete returns a timeout no later than 1 s after the deadline in force; 30 s after both ends were shut down no goroutine started by mieru is alive. evaluations = executions",
 		Assumptions: []string{
 			"'promptly (seconds, not the idle-read timeout)' is judged as <= 20 s of virtual time; the idle-read timeouts are 60-120 s",
-			"data races are outside this check: the cooperative scheduler's hand-offs are happens-before edges; see DESIGN.md for the free-running race pass",
+			"data races cannot be seen under the cooperative scheduler (hand-offs are happens-before edges); unit free-running-race-pass runs the real client and server over loopback sockets under the Go race detector: dynamic detection, not exhaustive; a report is a true race",
 			"goroutines are attributed to mieru when they were started by a go statement inside an instrumented mieru package",
 		},
-		Units:          units,
+		Units: func(tier string) []runner.Unit {
+			return append(units(tier), raceUnit(tier))
+		},
 		QuickBudget:    240,
 		ThoroughBudget: 1800,
 	})
@@ -236,7 +238,7 @@ func pair(w *world.World, tag int) (cc, sc net.Conn, err error) {
 	return cc, sc, nil
 }
 
-func exec(p params, ctl *explore.Ctl) explore.Result {
+func run1(p params, ctl *explore.Ctl) explore.Result {
 	v := &xfer.Verdict{Prop: "C15"}
 	// long enough for the 60-120 s idle-read timeouts to expire after the closer acted, so
 	// that "released late" and "never returns" are told apart; the writer scenarios poll
@@ -718,7 +720,7 @@ func units(tier string) []runner.Unit {
 		}
 		us = append(us, runner.Unit{Name: name, Split: p.Ds > 0, Cost: cost, Run: func(u *runner.U) {
 			u.Sample(p.String())
-			u.Explore(explore.Bound{Ds: p.Ds}, p.String(), func(ctl *explore.Ctl) explore.Result { return exec(p, ctl) })
+			u.Explore(explore.Bound{Ds: p.Ds}, p.String(), func(ctl *explore.Ctl) explore.Result { return run1(p, ctl) })
 		}})
 	}
 	closers := []string{"client-conn", "server-conn", "both-conns", "client-stop", "server-stop", "both-stop", "network-loss"}
